@@ -430,8 +430,9 @@ func TestCheck(t *testing.T) {
 		floods.collect(r)
 	}
 	r.Assume("narrow reading (implied by every reading of the statement): among requests carrying the same nonce AND the same signed timestamp at most one is honoured while that timestamp passes the tolerance check in force at arrival; the broader reading (same nonce, newer timestamp after the first entry expired) needs unbounded memory and is not checked")
-	r.Assume("reloads in the alphabet keep the route HMAC-protected (same secret), tolerance unchanged or doubled")
-	r.Set("rule", "(1) every history up to the depth over {valid/invalid/duplicate signed requests with 2 nonces and 2 signed timestamps, clock to the next of 12 positions around ts-tol, ts, ts+tol, ts+2tol, ts+3tol (+/- 1 ns), reload same / reload with doubled tolerance}, through the ingress handler wired by startServers with the real reloadConfig inside a virtual-time bubble, de-duplicated on the runtime state dump; (2) every interleaving of two identical signed requests and a reload; non-trivial = distinct (operation, status) pairs and distinct concurrent outcomes")
+	r.Assume("reloads in the alphabet keep the route HMAC-protected (same secret), tolerance unchanged or doubled; management mutations move the labels billing/inv between the HMAC route, another route and nowhere; reloads / mutations that must fail do so because the file carries another ingress listen address or an HMAC secret reference to a missing file, and the edit is taken back afterwards")
+	r.Assume("part (3) observes enqueues through a wrapper around the store handed to VerifBoot (memory backend built as newQueueStore builds it from queue_limits); the push dispatcher is not running, messages leave the queue only through the drain operations")
+	r.Set("rule", "(1) every history up to the depth over {valid/invalid/duplicate signed requests with 2 nonces and 2 signed timestamps, clock to the next of 12 positions around ts-tol, ts, ts+tol, ts+2tol, ts+3tol (+/- 1 ns), reload same / reload with doubled tolerance}, through the ingress handler wired by startServers with the real reloadConfig inside a virtual-time bubble, de-duplicated on the runtime state dump; (2) every interleaving of two identical signed requests and a reload, and of a replay with a management mutation (applied / refused by its reload); (3) the same kind of search to its fixpoint, one child process per configuration: HMAC route with two deliver targets under queue_limits max_depth 1|2 reject and 1 drop_oldest (thorough: 1..3 x both policies, 12 clock positions) with drain / drain-oldest operations, and the pull configuration with the nine management mutations {upsert to the HMAC route, to another route, delete} x {applied, refused by a pending restart-required edit, refused by an unloadable secret} through the Admin handler and two failing reloads; oracle on the enqueues the store saw per (nonce, signed timestamp, target); non-trivial = distinct (configuration, operation, outcome) classes and distinct concurrent outcomes")
 	r.Finish()
 }
 
